@@ -19,7 +19,11 @@ func cmdNamesPost(args []string) {
 	tw := NewTraceWriter(args[1])
 	f, err := parser.ParseFile(token.NewFileSet(), args[0], nil, 0)
 	if err != nil {
-		fatal("the file written by gennames does not parse: " + err.Error())
+		// the tool's output is part of the property: an unreadable table is an observation, not a machinery failure
+		tw.Traces++
+		tw.Emit(Rec{"ev": "tablebad", "msg": err.Error()})
+		tw.Close(args[2])
+		return
 	}
 	table := map[string]string{}
 	ast.Inspect(f, func(n ast.Node) bool {
